@@ -120,7 +120,10 @@ def run(ctx):
         odd = 'odd\x0cname\x85with\u2028separators.fa'
         files[len(files)] = (odd, W.write_fasta(os.path.join(qdir, odd), pool[2]['contigs']))
         pool.append(dict(name=odd, contigs=pool[2]['contigs']))
-        n_special = 4
+        crlf = 'sample\r\nrun2.fasta'
+        files[len(files)] = (crlf, W.write_fasta(os.path.join(qdir, crlf), pool[4]['contigs']))
+        pool.append(dict(name=crlf, contigs=pool[4]['contigs']))
+        n_special = 5
         for nm, qi in (('run1/sample.fasta', 0), ('run2/sample.fasta', 4), ('x.fa', 2), ('x.fasta', 3)):
             files[len(files)] = (nm, W.write_fasta(os.path.join(qdir, nm), pool[qi]['contigs']))
             pool.append(dict(name=nm, contigs=pool[qi]['contigs']))
@@ -152,6 +155,10 @@ def run(ctx):
             if channel == 'positional':
                 args += [files[i][1] for i in batch]
                 labels = [dict(kind='path', v=cps(files[i][1])) for i in batch]
+            elif channel == 'list' and any('\n' in files[i][0] or '\r' in files[i][0] for i in batch):
+                args += [files[i][1] for i in batch]            # a list file cannot express a name with a line break: given positionally
+                labels = [dict(kind='path', v=cps(files[i][1])) for i in batch]
+                channel = 'positional'
             elif channel == 'list':
                 lf = os.path.join(tmp, f'list{bi}.txt')
                 cli.write_listfile(lf, [files[i][0] for i in batch], bi)          # every rendering of ListFile!Styles in turn
